@@ -423,9 +423,46 @@ Definition dec_set_context_state (d : dec) (ctx st : Z) : dec :=
 Definition dec_reset_contexts (d : dec) : dec :=
   dec_set_acx d (d_a d) (d_c d) (map (fun _ => 0) (d_cx d)).
 
+(* RawDecode() called on an MQ decoder object (T1 lazy passes without per-pass segments): it
+   shares c, ct, bp and data with Decode.  Go reads data[bp] (= d_cur) and advances. *)
+Definition dec_raw_decode (d : dec) : outcome (dec * Z) :=
+  let adv (c ct : Z) : dec :=       (* c = data[bp]; bp++ *)
+    match d_rest d with
+    | nx :: rest' => mkDec (d_a d) c ct (d_eos d) (d_bp d + 1) (d_dlen d) nx rest' (d_cx d)
+    | [] => mkDec (d_a d) c ct (d_eos d) (d_bp d + 1) (d_dlen d) 0 [] (d_cx d)
+    end in
+  let fill : outcome dec :=
+    if d_ct d =? 0 then
+      if d_dlen d - 2 <=? d_bp d then
+        (* bp >= dataLen: at the sentinel, feed 1-bits, no read, no advance *)
+        Ok (mkDec (d_a d) 0xFF 8 (d_eos d) (d_bp d) (d_dlen d) (d_cur d) (d_rest d) (d_cx d))
+      else if (0 <=? d_bp d) && (d_bp d <? d_dlen d) then
+        let cur := d_cur d in
+        if d_c d =? 0xFF then
+          if 0x8F <? cur then
+            Ok (mkDec (d_a d) 0xFF 8 (d_eos d) (d_bp d) (d_dlen d) (d_cur d) (d_rest d) (d_cx d))
+          else Ok (adv cur 7)
+        else Ok (adv cur 8)
+      else Panic
+    else Ok d in
+  obind fill (fun d1 =>
+    let ct := d_ct d1 - 1 in
+    Ok (mkDec (d_a d1) (d_c d1) ct (d_eos d1) (d_bp d1) (d_dlen d1) (d_cur d1) (d_rest d1) (d_cx d1),
+        if ct <? 0 then 0 else Z.land (Z.shiftr (d_c d1) ct) 1)).
+
+(* any interleaving of Decode(ctx) (kind = 0) and RawDecode() (kind <> 0) on one decoder *)
+Fixpoint dec_mixed_list (d : dec) (ops : list (Z * Z)) : outcome (dec * list Z) :=
+  match ops with
+  | [] => Ok (d, [])
+  | (kind, cx) :: t =>
+    obind (if kind =? 0 then dec_decode d cx else dec_raw_decode d) (fun r =>
+      obind (dec_mixed_list (fst r) t) (fun r2 => Ok (fst r2, snd r :: snd r2)))
+  end.
+
 (* =====================================================================================
    Raw (bypass) decoder: NewRawDecoder / RawInit + RawDecode.  Here Go reads data[bp] and then
-   advances, so the zipper is r_rest = data[bp..].
+   advances, so the zipper is r_rest = data[bp..].  r_dlen = len(data) with the sentinel, so
+   Go's dataLen is r_dlen - 2; at bp >= dataLen the reader feeds 1-bits and stays put.
    ===================================================================================== *)
 Record rawdec : Type := mkRaw { r_c : Z; r_ct : Z; r_bp : Z; r_dlen : Z; r_rest : list Z }.
 
@@ -435,7 +472,10 @@ Definition raw_new (data : list Z) : rawdec :=
 Definition raw_decode (r : rawdec) : outcome (rawdec * Z) :=
   let fill : outcome rawdec :=
     if r_ct r =? 0 then
-      if (0 <=? r_bp r) && (r_bp r <? r_dlen r) then
+      if r_dlen r - 2 <=? r_bp r then
+        (* bp >= dataLen: at the sentinel, feed 1-bits, no read, no advance *)
+        Ok (mkRaw 0xFF 8 (r_bp r) (r_dlen r) (r_rest r))
+      else if (0 <=? r_bp r) && (r_bp r <? r_dlen r) then
         match r_rest r with
         | [] => Panic
         | next :: rest' =>
